@@ -46,11 +46,11 @@ func dryRunModes(op opDef) []modeDef {
 
 func init() {
 	register(&propDef{
-		ID: "C06",
+		ID:      "C06",
 		Anchors: []string{"pkg/action/install.go", "pkg/action/upgrade.go", "pkg/action/rollback.go", "pkg/action/uninstall.go", "pkg/cmd/template.go", "pkg/cmd/install.go"},
-		NotDec: []string{"the actual HTTP traffic of a run", "side effects of a user-supplied post-renderer", "cluster contact explicitly requested with --dry-run=server (lookup)"},
+		NotDec:  []string{"the actual HTTP traffic of a run", "side effects of a user-supplied post-renderer", "cluster contact explicitly requested with --dry-run=server (lookup)"},
 		Trusted: []string{"effect classification table in checker/effects.go (kube.Interface write methods, Storage writes, client-go typed clients, cli-runtime resource.Helper)"},
-		Run: runC06,
+		Run:     runC06,
 	})
 }
 
